@@ -45,6 +45,68 @@ def gen_gate_cases(ctx):
                 add(kind, n, ts, cs)
     return cases
 
+
+# ---------------------------------------------------------------- generic families via the harness' "sched" wrapper
+VOLATILE = ("readback", "perm_agree")   # bookkeeping that depends on the per-call hasher state, not on the schedule
+def close_json(a, b, tol=1e-12):
+    """two result objects equal except float reductions (hex fields under key 'z' or 'red') within tol"""
+    if type(a) != type(b): return False
+    if isinstance(a, dict):
+        a = {k: v for k, v in a.items() if k not in VOLATILE}; b = {k: v for k, v in b.items() if k not in VOLATILE}
+        if set(a) != set(b): return False
+        for k in a:
+            if k == "v":
+                # amplitudes: equal as numbers (a fresh HashMap per call may iterate in another order, which can flip the sign of a zero)
+                if len(a[k]) != len(b[k]) or any(bits2float(p) != bits2float(q) for p, q in zip(a[k], b[k])): return False
+                continue
+            if k in ("z", "red"):
+                xa, xb = [bits2float(x) for x in a[k]], [bits2float(x) for x in b[k]]
+                if len(xa) != len(xb) or any(abs(p - q) > tol * max(1.0, abs(p)) for p, q in zip(xa, xb)): return False
+            elif not close_json(a[k], b[k], tol): return False
+        return True
+    if isinstance(a, list):
+        return len(a) == len(b) and all(close_json(x, y, tol) for x, y in zip(a, b))
+    return a == b
+
+def sched_family(ctx, name, inner_cases, stats, describe_fn):
+    pools = POOLS_T if ctx.thorough() else POOLS_Q
+    cases = [{"op": "sched", "inner": c, "pools": pools, "callers": 8 if ctx.thorough() else 4} for c in inner_cases]
+    results = run_harness(cases, nproc=4)
+    st = {"cases": len(cases), "variants": 0, "bit_identical": 0, "reductions_within_1e-12": 0, "differ": 0}
+    for c, r in zip(inner_cases, results):
+        if r.get("r") != "sched":
+            ctx.violations.append(("[%s] harness failure/panic: %s" % (name, str(r)[:200]), {"family": name, "case": c, "describe": describe_fn(c)})); continue
+        st["variants"] += r["variants"]
+        ds = r["distinct"]
+        if any(d["res"].get("r") in ("panic", "crash") for d in ds):
+            ctx.violations.append(("[%s] panic under some schedule" % name, {"family": name, "case": c, "describe": describe_fn(c), "labels": [d["label"] for d in ds]}))
+        elif r["ndistinct"] == 1:
+            st["bit_identical"] += 1
+        elif r["ndistinct"] <= 64 and all(close_json(ds[0]["res"], d["res"], 0.0) for d in ds[1:]):
+            st["bit_identical"] += 1
+        elif r["ndistinct"] <= 64 and all(close_json(ds[0]["res"], d["res"]) for d in ds[1:]):
+            st["reductions_within_1e-12"] += 1
+        else:
+            st["differ"] += 1
+            ctx.violations.append(("[%s] the same call returned different values under different paths/pools/callers: %s" % (name, [d["label"] for d in ds]),
+                                   {"family": name, "case": c, "describe": describe_fn(c), "labels": [d["label"] for d in ds]}))
+    stats[name] = st
+    return st
+
+def gen_pauli_inner(ctx):
+    from ..paulicases import rand_string, rand_coef
+    rng = ctx.rng
+    out = []
+    for n, cnt in ([(2, 10), (4, 15), (6, 15), (7, 15), (8, 6), (10, 3)] if not ctx.thorough() else [(2, 30), (4, 60), (6, 60), (7, 60), (8, 30), (10, 10), (11, 6)]):
+        for _ in range(cnt):
+            k = rng.choice([1, 2, 3, 5, 9, 17])
+            mode = rng.choice(["apply", "sum_apply", "expect", "expect"])
+            terms = [rand_string(rng, n) for _ in range(1 if mode == "apply" else k)]
+            out.append({"op": "pauli", "mode": mode, "n": n, "v": rand_vec(rng, n, "generic"), "terms": terms, "thr": 10})
+    return out
+def describe_pauli(c):
+    return {"mode": c["mode"], "n": c["n"], "nterms": len(c["terms"])}
+
 def run(ctx):
     proof_ok = proof_check(ctx)
     if ctx.thorough() and proof_ok:
@@ -75,6 +137,8 @@ def run(ctx):
         if r["r"] in ("panic", "crash"):
             stats["panic"] += 1
             ctx.violations.append(("panic under some schedule: %s" % r.get("msg"), {"case": c, "describe": describe(c)}))
+    fam = {}
+    sched_family(ctx, "pauli/sumop apply + expectation", gen_pauli_inner(ctx), fam, describe_pauli)
     ctx.broken = ctx.broken[:5]
     by = {}
     for c in cases:
@@ -85,13 +149,18 @@ def run(ctx):
                        "(threshold hook) x rayon pools %s x 2 repeats + concurrent callers on the shared input; all results compared bit for bit, "
                        "one of them with the Coq model. evaluations = number of real apply() calls compared." % (POOLS_T if ctx.thorough() else POOLS_Q),
                   samples=[dict(describe(c), identical=r.get("identical"), variants=r.get("variants")) for c, r in list(zip(cases, results))[:3]],
-                  extra={"verdict_counts": stats, "cases": len(cases), "families": ["gate application (all operators)"], "max_qubits": max(c["n"] for c in cases)})
+                  extra={"verdict_counts": stats, "cases": len(cases), "families": ["gate application (all operators)"] + list(fam), "family_stats": fam, "max_qubits": max(c["n"] for c in cases)})
 
 def replay(ctx, path):
     body = json.load(open(path))
     case = body["replay"].get("case")
     if not case:
         print("replay file carries no concrete case:", body["what"]); return 1
+    if body["replay"].get("family"):
+        st = {}
+        n0 = len(ctx.violations)
+        sched_family(ctx, body["replay"]["family"], [case], st, lambda c: {})
+        print(json.dumps(st, indent=1)); return 1 if len(ctx.violations) > n0 else 0
     r = run_harness([case])[0]
     print(json.dumps({"describe": describe(case), "identical": r.get("identical"), "differing": r.get("differing"), "r": r["r"]}, indent=1))
     return 0 if r.get("identical") else 1
